@@ -101,6 +101,7 @@ def call_contract(ex, module, qualname, argskw, node, self_obj=None):
             key = 'penman.models.noop:NoOpModel.' + qualname.split('.', 1)[1]
             c = ex.eng.sidecar.contracts[key]
             module, qualname = key.split(':')
+    ex.eng.contracts_called.add(key)
     if c.options.get('bounded') or c.options.get('axiom'):
         # the callee's contract is used without having been proved in this framework: recorded as an
         # assumption of the caller's proof (bounded: executed natively by the sweep; axiom: boundary)
